@@ -78,9 +78,11 @@ CHECKS["C19"] = dict(
     technique="Lean 4 inductive invariant of a transition system over all interleavings (n, m arbitrary) + termination measure + trace validation of real executions + forced-schedule witness replay",
     text=("Safety (no lost/duplicated/cross-wired connection, no error path), deadlock freedom, termination (strictly "
           "decreasing measure) and final-state completeness (every pair shares exactly m connections, k-th <-> k-th) are "
-          "proved for the mesh-formation transition system for every n >= 2 and m. Every recorded hook trace of real "
-          "loopback sessions (2..6 parties x 1..4 connections, permuted joins, seeded delays) is validated as a run of the "
-          "model; oracle: every Connect returns, tables complete, tagged ping on every connection arrives on the same k."),
+          "proved for the mesh-formation transition system for every n >= 2 and every m <= 256 (the one-byte connection id of "
+          "the hello word is in the model: C19_conn_id_one_byte). Every recorded hook trace of real loopback sessions "
+          "(2..6 parties x 1..4 connections, plus many-connection meshes m = 5..64 and 2:256; permuted joins, seeded delays "
+          "incl. multi-second ones) is validated as a run of the model; oracle: every Connect returns, tables complete, tagged "
+          "ping on every connection arrives on the same k. Structural facts: no clock/deadline in the handshake path, hello id coding."),
     note=TB + "TCP, sync.Cond and scheduling are modelled (accept order arbitrary); real timing is sampled. Hooks: "
               "p2p/verif_point_{on,off}.go + verifPoint calls.")
 
@@ -158,16 +160,17 @@ CHECKS["C20"] = dict(
 CHECKS["C07"] = dict(
     category="proof", design_ref="DESIGN.md section 2 / C07",
     technique="Lean 4 proofs on an executable builder-monad model; structural gate-list equality (the Lean generator reproduces the Go builder's gates one for one) + differential evaluation tie; exhaustive and sampled implementation-side oracle",
-    text=("Tier-A builders (ripple adder/subtractor, unsigned/signed comparators, Eq/Neq, MUX, bitwise, logical, bit tests, "
-          "array index, Hamming) are proved exact for ALL operand and result widths with exact width guards "
-          "(toNat z = f(toNat x, toNat y) mod 2^|z|), bridged to C01's plain evaluator; negation witnesses for the array "
-          "multiplier, subtractor and signed comparator where the code is wrong. The Lean generators reproduce the real "
-          "builders' gate lists gate for gate on thousands of width triples per run (so the theorem about the generator is "
-          "a theorem about that Go output); Kogge-Stone, Karatsuba and Wallace are tied gate for gate but not yet proved "
-          "for general widths; dividers are validated only. Oracle: real builder -> Compile -> Compute vs math/big, "
-          "exhaustive up to 8 bits (thorough), boundary-biased to 130 bits, both targets."),
-    note=TB + "Partial overall: Tier B/C builders and `Compile` by validation only; known findings (several reachable from MPCL "
-              "programs) are re-derived on every run.")
+    text=("Proved exact for ALL operand and result widths (toNat z = f(toNat x, toNat y) mod 2^|z|, exact width guards, "
+          "bridged to C01's plain evaluator): ripple and Kogge-Stone adders/subtractors (prefix-network invariant; witnesses that "
+          "one stage fewer is wrong), array multiplier (row invariant), Karatsuba for every threshold >= 3, Wallace tree + final "
+          "adder (column-sum invariant, termination within fuel), NewMultiplier on both targets, long divider udiv/umod (restoring "
+          "invariant, non-zero divisor, result width <= operand width), signed divider and modulo and signed comparators for equal "
+          "operand widths, unsigned comparators, Eq/Neq, MUX, bitwise, logical, bit tests, array index, Hamming (both targets); "
+          "negation witnesses where the code is wrong. The Lean generators reproduce the real builders' gate lists gate for gate on "
+          "thousands of width triples per run (so a theorem about the generator is a theorem about that Go output). Oracle: real "
+          "builder -> Compile -> Compute vs math/big, exhaustive up to 8 bits (thorough), boundary-biased to 130 bits, both targets."),
+    note=TB + "Partial overall: the Goldschmidt divider (GMW target; known inexact), the restoring/array divider variants and `Compile` "
+              "itself are validated by evaluation only; signed builders on unequal operand widths are known findings re-derived on every run.")
 
 CHECKS["C05"] = dict(
     category="translation_validation", design_ref="DESIGN.md section 2 / C05",
